@@ -1583,7 +1583,7 @@ pub fn run_c14(run: &mut Run) -> Stats {
             }
         }
     }
-    run.rule = "all two-request histories: request 1 in {GET, GET+satisfiable Range, GET+If-None-Match miss, unsatisfiable Range (416), failing If-Match (412), If-None-Match hit (304), multi-range}; request 2 = GET/HEAD echoing every subset of {If-None-Match: <served ETag>, If-Modified-Since: <served Last-Modified>, If-Match: <served ETag>, If-Unmodified-Since: <served Last-Modified>, If-Range: <served ETag> + Range} (32 subsets), built from the bytes actually served; x etag {absent, strong, weak; tags containing comma, semicolon, '*', 'W/', backslash, obs-text, the empty tag, a 300-byte tag} x mtime {absent, epoch, whole second, +1ms, +1ns, +999999999ns, now+1day} x entity header sets {none, 1, 2, 3, Latin-1 values, repeated field names}. Oracle step 1: Accept-Ranges, ETag byte-equal, Date/Last-Modified parseable with LM <= Date and LM == floor(mtime) for past mtimes, entity headers present on 200/206-without-If-Range and absent on 304/412/416. Step 2: outcome derived from the echoed subset alone. Supplement (time sampling, not exhaustive): four requests every 2 ms for 2.9 s on one thread (entities modified tomorrow / at the instant of the request / 1.2 s after the start of the loop / long ago), single-response oracle, and an immediate echo of the served Last-Modified for the second and fourth. non-trivial = distinct (entity, first request, echoed subset, method)".into();
+    run.rule = "all two-request histories: request 1 in {GET, GET+satisfiable Range, GET+If-None-Match miss, unsatisfiable Range (416), failing If-Match (412), If-None-Match hit (304), multi-range}; request 2 = GET/HEAD echoing every subset of {If-None-Match: <served ETag>, If-Modified-Since: <served Last-Modified>, If-Match: <served ETag>, If-Unmodified-Since: <served Last-Modified>, If-Range: <served ETag> + Range} (32 subsets), built from the bytes actually served; x etag {absent, strong, weak; tags containing comma, semicolon, '*', 'W/', backslash, obs-text, the empty tag, a 300-byte tag} x mtime {absent, epoch, whole second, +1ms, +1ns, +999999999ns, now+1day} x entity header sets {none, 1, 2, 3, Latin-1 values, repeated field names}. Oracle step 1: Accept-Ranges, ETag byte-equal, Date/Last-Modified parseable with LM <= Date and LM == floor(mtime) for past mtimes, entity headers present on 200/206-without-If-Range and absent on 304/412/416. Step 2: outcome derived from the echoed subset alone. Controlled clock (clock_gettime interposed): clock T at the first request with nanoseconds in {0, 1, 5e8, 999999999} x modification time at T - 1 day, T - 1 s - 1 ns, T - 1 s, the last ns of the previous second, the start of this second, T - 1 ns, T, T + 1 ns, the last ns of this second, the next second, T + 1 s, T + 1 day x clock of the echoing request in {T, T + 1 ns, the next second, T + 1 s, T + 2 days} x echo of the served Last-Modified in If-Modified-Since / If-Unmodified-Since x etag {strong, absent}; a modification time that is not after T must be served truncated to its second. Supplement (time sampling, not exhaustive): four requests every 2 ms for 2.9 s on one thread (entities modified tomorrow / at the instant of the request / 1.2 s after the start of the loop / long ago), single-response oracle, and an immediate echo of the served Last-Modified for the second and fourth. non-trivial = distinct (entity, first request, echoed subset, method)".into();
     run.bounds = json!({"etag": etags.len(), "mtime": 7, "header_sets": hsets.len(), "first_requests": firsts.len(), "echo_subsets": 32});
     run.assumptions.push("SystemTime::now() is not controlled: past mtimes are decades old, the future one is a day ahead, so no verdict depends on when the two calls happen".into());
     let ev = Eval { prop: &run.prop.clone(), extra_polls: 1 };
@@ -1686,6 +1686,96 @@ pub fn run_c14(run: &mut Run) -> Stats {
             }
         }
     });
+    // Controlled clock: the checker executable defines `clock_gettime` itself (sysched.rs), so the
+    // wall clock of this thread is an input like any other. Every relation between the clock T at
+    // the first request, the modification time (T - 1 day .. T + 1 day, on either side of T and of
+    // the second boundaries by 1 ns) and the clock T2 of the echoing request (T, T + 1 ns, the next
+    // second, T + 1 s, T + 2 days) is enumerated -- what the time sampling below can only hope to hit.
+    let mut cs = Stats::new();
+    {
+        let st = &mut cs;
+        let evr = &ev;
+        on_fresh_thread(move || {
+            use crate::sysched::{clock_reads, set_clock};
+            let base: i64 = 1_700_000_000;
+            let ns = 1_000_000_000i128;
+            let mut k = 0u64;
+            for tn in [0i64, 1, 500_000_000, 999_999_999] {
+                let t_ns: i128 = base as i128 * ns + tn as i128;
+                let to_next = ns - tn as i128;
+                let mut offs: Vec<i128> = vec![-86_400 * ns, -ns - 1, -ns, -(tn as i128) - 1, -(tn as i128), -1, 0, 1, to_next - 1, to_next, ns, 86_400 * ns];
+                offs.sort();
+                offs.dedup();
+                let mut t2s: Vec<i128> = vec![0, 1, to_next, ns, 2 * 86_400 * ns];
+                t2s.sort();
+                t2s.dedup();
+                for off in offs {
+                    let mt_ns = t_ns + off;
+                    let mt = std::time::UNIX_EPOCH + std::time::Duration::new((mt_ns / ns) as u64, (mt_ns % ns) as u32);
+                    let future_at_first = off > 0;
+                    for etag in [Some(&b"\"v1\""[..]), None] {
+                        let e = ent(1000, etag, Some(mt), vec![], vec![]);
+                        set_clock(Some((base, tn)));
+                        let reads0 = clock_reads();
+                        k += 1;
+                        let r1 = evr.run(&Req::new("GET"), &e, st, (1 << 61) + k);
+                        if clock_reads() == reads0 {
+                            eprintln!("MACHINERY ERROR: the controlled clock was not read during serve(): clock_gettime is not interposed");
+                            std::process::exit(2);
+                        }
+                        let Some((o1, _)) = r1 else {
+                            set_clock(None);
+                            continue;
+                        };
+                        st.count("controlled_clock_first_requests", 1);
+                        let lm = o1.hdr("last-modified").and_then(crate::oracle::date::parse_imf);
+                        let mut fs1: Vec<Finding> = Vec::new();
+                        if !future_at_first && o1.panic.is_none() && lm != Some((mt_ns / ns) as u64) {
+                            fs1.push(Finding { props: vec!["C14"], key: "lm-not-truncated-mtime:controlled-clock".into(), msg: format!("clock {base}.{tn:09}, modification time {} ns {} it (not in the future): Last-Modified {:?}, the modification time truncated to the second is {}", off.abs(), if off < 0 { "before" } else { "after / at" }, o1.hdr("last-modified").map(String::from_utf8_lossy), mt_ns / ns) });
+                        }
+                        if !fs1.is_empty() {
+                            k += 1;
+                            evr.report(&Req::new("GET"), &e, &o1, fs1, st, (1 << 61) + k);
+                        }
+                        let Some(served) = o1.hdr("last-modified").map(|v| v.to_vec()) else {
+                            set_clock(None);
+                            continue;
+                        };
+                        for &d2 in &t2s {
+                            let c2 = t_ns + d2;
+                            set_clock(Some(((c2 / ns) as i64, (c2 % ns) as i64)));
+                            for (hdr, want_304) in [("if-modified-since", true), ("if-unmodified-since", false)] {
+                                let r2 = Req::new("GET").with(hdr, &served);
+                                k += 1;
+                                let Some(o2) = run_serve(&r2, &e, 1, HORIZON) else { continue };
+                                st.evaluations += 1;
+                                st.nontrivial(&("clock", tn, off, d2, hdr, etag.is_some()));
+                                let s0 = st.state(&("clock-first", off.signum(), (off.abs() >= ns), d2 >= ns));
+                                let s1 = st.state(&("clock-second", hdr, o2.status));
+                                st.transition(s0, want_304 as u64, s1);
+                                st.outcome(format!("controlled-clock/{}/{}", if future_at_first { "future-mtime" } else { "past-mtime" }, o2.status));
+                                let mut fs: Vec<Finding> = Vec::new();
+                                let suffix = if future_at_first { ":future-mtime" } else { "" };
+                                let ctx = format!("clock {base}.{tn:09} at the first request, modification time {off} ns from it, clock advanced by {d2} ns before the echo");
+                                if o2.panic.is_some() {
+                                    fs.push(Finding { props: vec!["C14"], key: "echo-panic".into(), msg: format!("{ctx}: second request panicked: {:?}", o2.panic) });
+                                } else if want_304 && o2.status != 304 {
+                                    fs.push(Finding { props: vec!["C14"], key: format!("echo-not-304{suffix}"), msg: format!("{ctx}: echoing the served Last-Modified {:?} in If-Modified-Since gave {} instead of 304", String::from_utf8_lossy(&served), o2.status) });
+                                } else if !want_304 && o2.status == 412 {
+                                    fs.push(Finding { props: vec!["C14"], key: format!("echo-412{suffix}"), msg: format!("{ctx}: echoing the served Last-Modified {:?} in If-Unmodified-Since gave 412", String::from_utf8_lossy(&served)) });
+                                }
+                                check_validators(&r2, &e, &o2, &mut fs);
+                                evr.report(&r2, &e, &o2, fs, st, (1 << 61) + k);
+                            }
+                        }
+                        set_clock(None);
+                    }
+                }
+            }
+        });
+    }
+    run.extra.insert("controlled_clock_histories".into(), json!(cs.evaluations));
+    total.merge(cs);
     // Time sampling (NOT exhaustive -- the wall clock is the one input the harness does not own):
     // the same three requests every 2 ms for 2.3 s on one fresh thread, so that every phase of a
     // wall-clock second and at least two second boundaries are crossed by consecutive requests.
